@@ -10,4 +10,10 @@ Definition stable_kinds : list string := ["mergesort"; "stable"].
 Definition code_shape_ok : bool :=
   existsb (String.eqb group_sort_kind) stable_kinds && Z.eqb transitions_drop 1 && Z.eqb transitions_roll 1.
 
+(* every keyword parameter of Frame/Series._axis_window is forwarded (k=k) to _axis_window_items, and every one of
+   _axis_window_items to container_util.axis_window_items: (sorted parameter names, sorted forwarded names) *)
+Definition window_forwarding_ok : bool :=
+  forallb (fun pf : list string * list string => list_eqb String.eqb (fst pf) (snd pf))
+          [fwd_frame_axis_window; fwd_frame_axis_window_items; fwd_series_axis_window; fwd_series_axis_window_items].
+
 Definition path_is_sort (p : gpath) : bool := match p with PathSort => true | PathUnique => false end.
